@@ -145,6 +145,7 @@ def run_unit(spec_name, seed=None, rlimit=None, extra_args=(), keep_name=None, t
                           "text": (sp.get("text") or [{}])[0].get("text", "").strip()})
         f = Failure(msg, spans, d.get("rendered", ""))
         f.kind = classify(msg)
+        raw_tags = []
         for sp in spans:
             o = sp["origin"]
             # most specific attribution: a trailing `// [TAG,TAG]` on the very line that failed
@@ -161,7 +162,10 @@ def run_unit(spec_name, seed=None, rlimit=None, extra_args=(), keep_name=None, t
             elif o[0] == "repo":
                 f.repo_sites.append("src/%s:%d" % (o[1], o[2]))
             elif o[0] == "raw":
-                f.clause_ids.append("client@%s:%s" % (o[1], o[2]))
+                f.clause_ids.append("client@%s:%s" % (o[1], o[2].split(" [")[0]))
+                # default attribution of a glue / client block: `=== raw <name> [C05,C08]`
+                mm = re.search(r"\[([A-Za-z0-9_,\. ]+)\]\s*$", o[2])
+                if mm: raw_tags += [x.strip() for x in mm.group(1).split(",") if x.strip()]
             elif o[0] == "speclib":
                 f.clause_ids.append("speclib/%s:%d" % (o[1], o[2]))
                 # a requires-clause of a speclib lemma may carry its own attribution: `// [TAG,TAG]`
@@ -173,7 +177,7 @@ def run_unit(spec_name, seed=None, rlimit=None, extra_args=(), keep_name=None, t
         if f.line_tags:
             f.tags = f.line_tags
         elif not f.tags:
-            f.tags = f.lemma_tags or f.hint_tags
+            f.tags = f.lemma_tags or f.hint_tags or raw_tags
         # the postcondition of a closure is part of the contract of the function that contains it (rule R5):
         # attribute its failure to that function's clauses
         if not f.tags and "post-condition of closure" in msg.lower():
